@@ -1,6 +1,10 @@
 (* Model of Value.Pull / Collection.Pull / PullID with backpressure (value.go, collection.go) and
    of CollectionChange.include / filter (change.go), as list transformers from the events the
-   writer published after the subscription point to what the subscriber receives.  No proofs. *)
+   writer published after the subscription point to what the subscriber receives.  No proofs.
+   Collection.Pull with an equivalence: the current code is [pull_collection_held] (held map, below);
+   [pull_collection] with [Some cmp] is the code before /repo 3a50d70 (old against new of each change;
+   equal to the current one without an equivalence, and for equivalence RELATIONS on real histories:
+   HeldProofs / Held04Proofs). *)
 From SC Require Import Base.Prelude Resource.Impl.
 
 Set Implicit Arguments.
@@ -138,4 +142,147 @@ Section Pull.
     | _, None => view
     end.
   Definition fold_view (cs : list cchange) : list (string * M) := fold_left apply_change cs [].
+
+  (* ---- Collection.Pull with an equivalence, as the code is since /repo 3a50d70 (the CURRENT model;
+     [c_forward_gen] with an equivalence = the code before it: old against new of each change) ----
+     With an equivalence configured the Pull goroutine keeps [held], a Go map from id to the value the
+     subscriber holds for it (the new value of the last change SENT for the id, initially the seed as
+     sent), and compares every change with held[id] -- falling back to the change's own old value when
+     nothing was sent for the id yet:
+
+       base, sent := held[change.Id]
+       if !sent { base = change.OldValue }
+       if c.equivalence.Compare(base, change.NewValue) { held[change.Id] = base; continue }
+       if change.NewValue == nil { delete(held, change.Id) } else { held[change.Id] = change.NewValue }
+
+     A change without a new value is a REMOVE -- a real one or one synthesised by include when the item
+     leaves the filter: either way the entry goes, so a later ADD (re-add, re-entering the filter) is
+     compared with "nothing" again.  The Go map is an association list id -> possibly-nil message
+     ([Some None] = present with a nil value).  (First written by the C16 worker as Cmp/CollEquiv.v,
+     which now re-exports this file.) *)
+  Definition heldmap := list (string * option M).
+
+  Fixpoint hget (id : string) (h : heldmap) : option (option M) :=
+    match h with
+    | [] => None
+    | (k, v) :: r => if String.eqb k id then Some v else hget id r
+    end.
+  Fixpoint hset (id : string) (v : option M) (h : heldmap) : heldmap :=
+    match h with
+    | [] => [(id, v)]
+    | (k, x) :: r => if String.eqb k id then (id, v) :: r else (k, x) :: hset id v r
+    end.
+  Fixpoint hdel (id : string) (h : heldmap) : heldmap :=
+    match h with
+    | [] => []
+    | (k, x) :: r => if String.eqb k id then hdel id r else (k, x) :: hdel id r
+    end.
+
+  (* the equivalence step on one change that passed include and filter: (deliver?, held afterwards) *)
+  Definition held_step (cmp : option M -> option M -> bool) (h : heldmap) (c : cchange) : bool * heldmap :=
+    let base := match hget (cc_id c) h with Some b => b | None => cc_old c end in
+    if cmp base (cc_new c) then (false, hset (cc_id c) base h)
+    else (true, match cc_new c with
+                | None => hdel (cc_id c) h
+                | Some v => hset (cc_id c) (Some v) h
+                end).
+
+  (* the event loop of Collection.Pull: include, filter, equivalence against held, send *)
+  Fixpoint c_forward_held (ro : ropts) (h : heldmap) (evs : list (cevent M)) : list cchange :=
+    match evs with
+    | [] => []
+    | e :: r =>
+        match include_gen false false (ro_include ro) (of_event e) with
+        | None => c_forward_held ro h r
+        | Some c =>
+            let c' := cc_filter ro c in
+            match equiv with
+            | None => c' :: c_forward_held ro h r
+            | Some cmp =>
+                let '(send, h') := held_step cmp h c' in
+                if send then c' :: c_forward_held ro h' r else c_forward_held ro h' r
+            end
+        end
+    end.
+
+  (* held after the seed loop: every seed change sent, by id *)
+  Definition held_of_seeds (sd : list cchange) : heldmap :=
+    fold_left (fun h c => hset (cc_id c) (cc_new c) h) sd [].
+
+  Definition pull_collection_held (s : cstate M) (ro : ropts) (evs : list (cevent M)) : list cchange :=
+    let sd := if ro_updates_only ro then [] else seeds ro (included ro (c_items s)) in
+    sd ++ c_forward_held ro (held_of_seeds sd) evs.
+
+  (* the code before 3a50d70 under its own name *)
+  Definition c_forward_oldnew_v0 := c_forward_gen false false.
+  Definition pull_collection_oldnew_v0 := pull_collection_gen false false.
+
+  (* ---- the two halves of the loop as list transformers (used by the proofs) ---- *)
+  (* what include and filter offer to the equivalence step *)
+  Definition offered (ro : ropts) (evs : list (cevent M)) : list cchange :=
+    flat_map (fun e => match include_gen false false (ro_include ro) (of_event e) with
+                       | None => []
+                       | Some c => [cc_filter ro c]
+                       end) evs.
+  Fixpoint held_filter (cmp : option M -> option M -> bool) (h : heldmap) (cs : list cchange) : list cchange :=
+    match cs with
+    | [] => []
+    | c :: r =>
+        let '(send, h') := held_step cmp h c in
+        if send then c :: held_filter cmp h' r else held_filter cmp h' r
+    end.
+  (* the map after the loop has handled [cs] *)
+  Fixpoint held_after (cmp : option M -> option M -> bool) (h : heldmap) (cs : list cchange) : heldmap :=
+    match cs with
+    | [] => h
+    | c :: r => held_after cmp (snd (held_step cmp h c)) r
+    end.
+
+  (* ---- specification side ---- *)
+  (* a view: id -> the value held for it (None = nothing) *)
+  Definition view := string -> option M.
+  Definition vupd (id : string) (v : option M) (w : view) : view :=
+    fun k => if String.eqb k id then v else w k.
+  (* the value a subscriber that received [cs] holds for [id]: the new value of the last change for it *)
+  Definition holds_after (w : view) (cs : list cchange) : view :=
+    fold_left (fun w c => vupd (cc_id c) (cc_new c) w) cs w.
+
+  (* deliver a change iff its new value is NOT equivalent to what the subscriber holds for its id *)
+  Fixpoint ideal_filter (cmp : option M -> option M -> bool) (w : view) (cs : list cchange) : list cchange :=
+    match cs with
+    | [] => []
+    | c :: r =>
+        if cmp (w (cc_id c)) (cc_new c) then ideal_filter cmp w r
+        else c :: ideal_filter cmp (vupd (cc_id c) (cc_new c) w) r
+    end.
+
+  (* the code before the repair on offered changes: old against new of each change *)
+  Fixpoint v0_filter (cmp : option M -> option M -> bool) (cs : list cchange) : list cchange :=
+    match cs with
+    | [] => []
+    | c :: r => if cmp (cc_old c) (cc_new c) then v0_filter cmp r else c :: v0_filter cmp r
+    end.
+
+  (* the offered changes describe one evolving collection [cur]: every change's old value is the
+     current value of its id *)
+  Fixpoint chained_from (cur : view) (cs : list cchange) : Prop :=
+    match cs with
+    | [] => True
+    | c :: r => cc_old c = cur (cc_id c) /\ chained_from (vupd (cc_id c) (cc_new c) cur) r
+    end.
+
+  (* raw events describe one evolving collection *)
+  Fixpoint ev_chained_from (cur : view) (evs : list (cevent M)) : Prop :=
+    match evs with
+    | [] => True
+    | e :: r => ce_old e = cur (ce_id e) /\ ev_chained_from (vupd (ce_id e) (ce_new e) cur) r
+    end.
+  (* what a reader with options [ro] sees of a collection [cur] *)
+  Definition seen (ro : ropts) (cur : view) : view :=
+    fun id => match cur id with
+              | None => None
+              | Some v =>
+                  if match ro_include ro with Some f => f id (Some v) | None => true end
+                  then Some (filt ro v) else None
+              end.
 End Pull.
